@@ -25,6 +25,7 @@
 // ChannelRouter.FindRoute does); base cases with self == source additionally run
 // through a real payment session (newPaymentSession + RequestRoute, probe "entry");
 // space HR runs its whole family through both.
+//
 //	T  topology: every multigraph with <= K channels on the nodes {S,A,B,T}
 //	   (parallel channels included) x a channel-profile palette per channel x
 //	   amounts x target in {T, S (self-payment)}; thorough also with the local node
@@ -489,6 +490,15 @@ func (w *c19Worker) family(base *c19Case, full bool) {
 		d.Probe = "entry"
 		w.eval(d)
 	}
+	// ... and through the real ChannelRouter.FindRoute (its own bandwidth manager over
+	// the router's SelfNode; the only entry of lnd where self != source occurs).
+	routerEntry := base.Entry == "" && !base.PayAddr && base.MetaLen == 0
+	if routerEntry {
+		d := base.clone()
+		d.Entry = "router"
+		d.Probe = "entry"
+		w.eval(d)
+	}
 	if r0.Route == nil || v0 == nil || !full {
 		return
 	}
@@ -507,6 +517,10 @@ func (w *c19Worker) family(base *c19Case, full bool) {
 		default:
 			st.ProbeEffect[cp+":other-route"]++
 		}
+	}
+
+	if routerEntry {
+		w.linkProbes(base, v0, derive)
 	}
 
 	// -- restrictions
@@ -727,6 +741,38 @@ func (w *c19Worker) family(base *c19Case, full bool) {
 	}
 }
 
+// linkProbes: the state of the switch link of every own channel the returned route
+// leaves the own node over, as seen by the router's real bandwidth manager (entry
+// "router"): link gone / not eligible / no HTLC slot (oracle hint 0 although the link
+// reports an ample Bandwidth()), and Bandwidth() at a-1 / a.
+func (w *c19Worker) linkProbes(base *c19Case, v0 *c19Verdict, derive func(string, func(*c19Case))) {
+	for j := range v0.amts {
+		if v0.from[j] != base.Self || base.chanByID(v0.chanIDs[j]) == nil {
+			continue
+		}
+		a, id := v0.amts[j], v0.chanIDs[j]
+		for _, st := range []string{"offline", "ineligible", "full"} {
+			st := st
+			derive(fmt.Sprintf("link:hop%d:%s", j, st), func(d *c19Case) {
+				d.Entry, d.Links, d.BW[id] = "router", map[uint64]string{id: st}, 0
+			})
+		}
+		for _, bw := range []uint64{a - 1, a} {
+			bw := bw
+			derive(fmt.Sprintf("link:hop%d:bw%d", j, bw), func(d *c19Case) { d.Entry, d.BW[id] = "router", bw })
+		}
+		// the same link states as the payment session's bandwidth manager sees them
+		if base.Self == base.Source && len(base.Hints) == 0 {
+			for _, st := range []string{"offline", "ineligible", "full"} {
+				st := st
+				derive(fmt.Sprintf("link:hop%d:%s:session", j, st), func(d *c19Case) {
+					d.Entry, d.Links, d.BW[id] = "session", map[uint64]string{id: st}, 0
+				})
+			}
+		}
+	}
+}
+
 func sortedU64(m map[uint64]bool) []uint64 {
 	l := make([]uint64, 0, len(m))
 	for k := range m {
@@ -753,7 +799,7 @@ func (p *c19Pol) withMax(m uint64) *c19Pol { q := *p; q.HasMax, q.Max = true, m;
 func (p *c19Pol) disabled() *c19Pol        { q := *p; q.Dis = true; return &q }
 func (p *c19Pol) cp() *c19Pol              { q := *p; return &q }
 
-var c19ProfileNames = []string{"free", "std", "negin", "round", "tight", "oneway", "posin", "asym"}
+var c19ProfileNames = []string{"free", "std", "negin", "round", "tight", "oneway", "posin", "asym", "upoff"}
 
 // profile returns capacity and the two policies (U->V, V->U; U is the lower node).
 func c19Profile(idx int, amt uint64) (capSat int64, uv, vu *c19Pol) {
@@ -777,6 +823,9 @@ func c19Profile(idx int, amt uint64) (capSat int64, uv, vu *c19Pol) {
 	case "oneway": // usable upwards only, and only once a fee has been added downstream
 		p := pp(1000, 1000, 40).withMin(amt + 1)
 		return big, p.cp(), p.disabled()
+	case "upoff": // the lower node (the payment source in every channel of S) has disabled its direction
+		p := pp(1000, 1000, 40)
+		return big, p.disabled(), p.cp()
 	case "posin": // inbound surcharge, long delta
 		p := pp(0, 1, 144).withIn(100, 1000)
 		return big, p.cp(), p.cp()
@@ -784,6 +833,9 @@ func c19Profile(idx int, amt uint64) (capSat int64, uv, vu *c19Pol) {
 		return int64((amt*3/2+999)/1000) + 1, pp(0, 500_000, 40).withIn(100, 0), pp(1000, 0, 1).withIn(0, -5000)
 	}
 }
+
+// palette of space X: free, std, upoff, oneway, negin
+var c19XPalette = []int{0, 1, 8, 5, 2}
 
 var c19Pairs = [][2]int{{nS, nA}, {nS, nB}, {nS, nT}, {nA, nB}, {nA, nT}, {nB, nT}}
 
@@ -846,6 +898,41 @@ func genTopo(k int, palette []int, amts []uint64, noSelf bool, emit func(*c19Cas
 		}
 	}
 	choose(0, 0)
+}
+
+// ---------------------------------------------------------------------------
+// space X: the payment source is NOT the router's own node (ChannelRouter.FindRoute /
+// QueryRoutes with source_pub_key): every multigraph with k channels on {S,A,B,T}
+// over a palette that has both one-way profiles (the lower / the upper node disabled
+// its direction: S is the lower node of each of its channels, so "upoff" is a disabled
+// first hop of the source, and on a channel of the own node it is a local channel whose
+// disabled flag the bandwidth hint overrides), source S, target T, x own node in
+// {A, B, T, a node without channels} x bandwidth hints for the SOURCE's channels
+// {absent (what lnd's bandwidth manager has for foreign channels), present and zero}.
+// Own channels always have their hint (fillDefaults). Oracle unchanged: a hop must use
+// an enabled direction unless it leaves the own node; bandwidth hints bind own channels only.
+func genForeign(k int, palette []int, amt uint64, lite bool, emit func(*c19Case)) {
+	genTopo(k, palette, []uint64{amt}, true, func(c *c19Case) {
+		for _, self := range []int{nA, nB, nT, 4} {
+			for _, srcHints := range []bool{false, true} {
+				d := c.clone()
+				d.Space = fmt.Sprintf("X%d", k)
+				if lite {
+					d.Space += "q"
+				}
+				d.Nodes, d.Self, d.lite = 5, self, lite
+				if srcHints {
+					d.BW = map[uint64]uint64{}
+					for _, ch := range d.Chans {
+						if ch.U == d.Source || ch.V == d.Source {
+							d.BW[ch.ID] = 0
+						}
+					}
+				}
+				emit(d)
+			}
+		}
+	})
 }
 
 // ---------------------------------------------------------------------------
@@ -1346,6 +1433,23 @@ func (w *c19Worker) sweepFamily(base *c19Case) {
 		e.Entry = "session"
 		w.eval(e)
 	}
+	// the same boundary with a destination custom record as the variable-size field
+	// (its TLV type takes 5 bytes where the metadata type takes 1), through all three
+	// entries (FindRoute attaches no payment address)
+	for l := lo - 5; l <= hi; l++ {
+		if l < 1 {
+			continue
+		}
+		for _, entry := range []string{"", "session", "router"} {
+			if entry == "router" && base.PayAddr {
+				continue
+			}
+			d := base.clone()
+			d.Probe = "customrecord:" + strconv.Itoa(l)
+			d.CustomLen, d.Entry = l, entry
+			w.eval(d)
+		}
+	}
 }
 
 // ---------------------------------------------------------------------------
@@ -1450,12 +1554,20 @@ func c19Generate(cfg tierCfg, thorough bool, emit0 func(*c19Case)) {
 		// every hint set once. The full HR families follow at their place.
 		genRouteHints(thorough, true, cfg.amts, emit)
 		genBlindedSets(thorough, cfg.amts, emit)
+		// foreign source (see genForeign): one and two channels with their full
+		// families here; three channels (base query, configurations, entries) follow
+		// behind the hint spaces
+		xAmt := cfg.amts[len(cfg.amts)-1]
+		genForeign(1, c19XPalette, xAmt, false, func(c *c19Case) { emitP(c, false) })
+		genForeign(2, c19XPalette, xAmt, false, func(c *c19Case) { emitP(c, false) })
 	}
 	genChain(cfg.lattice, cfg.amts, cfg.c3Amts, emit)
 	genHints(thorough, cfg.amts, emit)
 	genRouteHints(thorough, false, cfg.amts, emit)
 	if thorough {
 		genBlindedSets(thorough, cfg.amts, emit)
+	} else {
+		genForeign(3, c19XPalette[:4], cfg.amts[len(cfg.amts)-1], true, func(c *c19Case) { emitP(c, false) })
 	}
 	for _, tp := range cfg.topo {
 		amts := tp.amts
@@ -1464,6 +1576,16 @@ func c19Generate(cfg tierCfg, thorough bool, emit0 func(*c19Case)) {
 		}
 		allProbs := tp.allProbs
 		genTopo(tp.k, tp.palette, amts, tp.noSelf, func(c *c19Case) { emitP(c, allProbs) })
+	}
+	if thorough {
+		for _, amt := range cfg.amts {
+			for k := 1; k <= 3; k++ {
+				if k == 3 && amt != cfg.amts[len(cfg.amts)-1] {
+					continue // three channels: largest amount only
+				}
+				genForeign(k, c19XPalette, amt, false, func(c *c19Case) { emitP(c, k < 3) })
+			}
+		}
 	}
 	if cfg.selfOther {
 		// the local node is A, the payment is sourced at S (QueryRoutes with a
